@@ -18,7 +18,7 @@ go test -vet=off -count=1 ./... > /tmp/try-$name.suite 2>&1; s=$?
 if [ -d $md/demo ]; then (cd $md/demo && go run $tagflag . >>$log 2>&1); d1=$?; else d1=NA; fi
 echo "$name: suite rc=$s ($(grep -c '^ok' /tmp/try-$name.suite) ok)  demo without=$d0 with=$d1"
 for c in "$@"; do
-  (cd /verif && VERIF_REPO=$wt ./check $c --tier $tier > /tmp/try-$name.$c.out 2>&1); rc=$?
+  (cd ${VDIR:-/verif} && VERIF_REPO=$wt ./check $c --tier $tier > /tmp/try-$name.$c.out 2>&1); rc=$?
   echo "  check $c tier=$tier rc=$rc violations=$(grep -c '^VIOLATION' /tmp/try-$name.$c.out) known=$(grep -c '^KNOWN-FINDING' /tmp/try-$name.$c.out) infra=$(grep -c '^INFRA' /tmp/try-$name.$c.out)"
   grep '^VIOLATION' /tmp/try-$name.$c.out | head -3 | cut -c1-300
 done
